@@ -18,7 +18,8 @@ RULE = (
 )
 REQUIRED = ["get_rc_checked", "idempotence_checked", "extract_k_checked", "chain_checked", "core_flag_checked",
             "renumbering_relation_checked", "hh_bond_cases", "half_order_changes", "product_only_bonds",
-            "contexts_strictly_growing", "disconnected_centres", "derived_graph_contexts_checked", "hh_bond_with_both_ends_in_other_centre_bonds"]
+            "contexts_strictly_growing", "disconnected_centres", "derived_graph_contexts_checked", "hh_bond_with_both_ends_in_other_centre_bonds",
+            "inplace_edit_contexts_checked", "one_sided_atom_pairs"]
 ASSUMPTIONS = [
     "ITS graphs built with default flags (ignore_aromaticity=False): standard_order is the plain difference",
     "centre node attributes compared: element, charge, typesGH, atom_map (the documented selection)",
@@ -151,6 +152,47 @@ def check_contexts(ctx, its, rc, wit):
                 break
 
 
+def check_inplace_edits(ctx, its, wit):
+    """history on ONE graph object: query, edit bond attributes in place (node and edge counts unchanged), query again."""
+    from synkit.Graph.Context.radius_expand import RadiusExpand
+
+    w = its.copy()
+    for k in (0, 1, 2):
+        RadiusExpand.extract_k(w, k)
+    rng = ctx.rng
+    same = [(u, v) for u, v, d in w.edges(data=True) if d["order"][0] == d["order"][1] and d["order"][0]
+            and not (w.nodes[u].get("element") == "H" and w.nodes[v].get("element") == "H")]
+    diff = [(u, v) for u, v, d in w.edges(data=True) if d["order"][0] != d["order"][1]]
+    edits = []
+    if same:
+        edits.append(("break", rng.choice(same)))
+    if len(diff) > 1:
+        edits.append(("freeze", rng.choice(diff)))
+    for kind, (u, v) in edits:
+        o = w[u][v]["order"]
+        if kind == "break":
+            w[u][v]["order"] = (o[0], 0.0)
+            w[u][v]["standard_order"] = o[0]
+        else:
+            keep = o[0] or o[1]
+            w[u][v]["order"] = (keep, keep)
+            w[u][v]["standard_order"] = 0.0
+        centre = set(expected_rc(w)[0])
+        for k in (0, 1, 2):
+            try:
+                got = set(RadiusExpand.extract_k(w, k).nodes)
+            except Exception as ex:
+                ctx.violation("context-exception", {**wit, "k": k, "edit": kind}, f"extract_k raises {type(ex).__name__}: {ex} after an in-place bond edit")
+                return
+            ctx.count("inplace_edit_contexts_checked")
+            want = ball(w, centre, k) if k else centre
+            if got != want:
+                ctx.violation("context-atoms", {**wit, "k": k, "edit": kind, "bond": [u, v]},
+                              f"after editing bond {u}-{v} in place ({kind}) context({k}) is not the {k}-ball around the graph's present centre "
+                              f"({len(got)} atoms, expected {len(want)})")
+                return
+
+
 def rc_iso(a, b):
     nm = lambda x, y: x.get("element") == y.get("element") and x.get("charge") == y.get("charge")
     em = lambda x, y: x.get("order") == y.get("order")
@@ -162,6 +204,7 @@ def check_its(ctx, its, tag, key, wit):
     if rc is None:
         return None
     check_contexts(ctx, its, rc, wit)
+    check_inplace_edits(ctx, its, wit)
     n_changed = sum(1 for _, _, d in its.edges(data=True) if d["order"][0] != d["order"][1])
     for u, v, d in rc.edges(data=True):
         o = d["order"]
@@ -175,6 +218,9 @@ def check_its(ctx, its, tag, key, wit):
             ctx.count("product_only_bonds")
     if rc.number_of_nodes() and nx.number_connected_components(rc) > 1:
         ctx.count("disconnected_centres")
+    one_sided = {n for n, d in its.nodes(data=True) if "typesGH" in d and d["typesGH"][0][0] != d["typesGH"][1][0]}
+    if any(u in one_sided and v in one_sided for u, v in its.edges):
+        ctx.count("one_sided_atom_pairs")
     ctx.case(key, nontrivial=n_changed >= 1 and its.number_of_edges() > n_changed,
              sample={"space": tag, **{k: v for k, v in wit.items() if k != "its"}, "centre_atoms": sorted(rc.nodes), "its_atoms": its.number_of_nodes()}
              if (ctx.evaluations < 2 or ctx.rng.random() < 0.003) else None)
@@ -203,6 +249,17 @@ def synthetic_its(rng):
             heavy = [v for v in H.nodes if v < base]
             H.add_edge(base, rng.choice(heavy), order=1.0)
             H.add_edge(base + 1, rng.choice(heavy), order=1.0)
+    if rng.random() < 0.25:
+        # a fragment of 2-3 bonded atoms that exists on one side only (unbalanced reaction: leaving group not written,
+        # reagent fragment appearing): its atoms carry the placeholder label on the other side
+        side = H if rng.random() < 0.6 else G
+        base = max(max(G.nodes), max(H.nodes)) + 1
+        anchor = rng.choice(sorted(side.nodes))
+        prev = anchor
+        for x in range(base, base + rng.randint(2, 3)):
+            side.add_node(x, element=rng.choice(["C", "O", "S", "N"]), hcount=0, charge=0, aromatic=False, atom_map=x, neighbors=[])
+            side.add_edge(prev, x, order=float(rng.choice([1, 1, 2])))
+            prev = x
     return ITSConstruction().ITSGraph(G, H)
 
 
